@@ -56,12 +56,24 @@ Lemma schema_field_custom hook i om :
                               (fi_comment i) (fi_validators i) (fi_planmods i) SNoType).
 Proof. intros H. cbn [schema_field]. rewrite H. reflexivity. Qed.
 
+(* the value handed to the hook: the field, or the zero value of its type when the nullable embedded
+   message it is promoted from is not set *)
+Definition custom_source (i : finfo) (obj : goval) : res goval :=
+  match fi_parent i with
+  | Some (_, pzero) => do z <- gfield pzero (fi_name i); read_source i z obj
+  | None => gget_via obj (fi_via i) (fi_name i)
+  end.
+
 Lemma to_field_custom hook i om obj atys attrs ds t :
   fi_kind i = CustomKind -> lookup (fi_snake i) atys = Some t ->
   to_field hook (Field i om) obj atys (attrs, ds) =
-    do g <- gget_via obj (fi_via i) (fi_name i);
+    do g <- custom_source i obj;
     Ok (update (fi_snake i) (hook (fi_suffix i) g t (lookup (fi_snake i) attrs)) attrs, ds).
 Proof. intros K T. cbn [to_field]. rewrite T, K. reflexivity. Qed.
+
+(* an ordinary field (not promoted from an embedded pointer) is read directly *)
+Lemma custom_source_plain i obj : fi_parent i = None -> custom_source i obj = gget_via obj (fi_via i) (fi_name i).
+Proof. intros P. unfold custom_source. rewrite P. reflexivity. Qed.
 
 Lemma to_field_custom_missing hook i om obj atys attrs ds :
   lookup (fi_snake i) atys = None ->
@@ -72,8 +84,9 @@ Lemma from_field_custom hook i om attrs obj ds :
   fi_kind i = CustomKind ->
   from_field hook (Field i om) attrs (obj, ds) =
     let a0 := match attrs with Some l => lookup (fi_snake i) l | None => None end in
-    do cur <- gget_via obj (fi_via i) (fi_name i);
-    do obj' <- gset_via obj (fi_via i) (fi_name i) (hook (fi_suffix i) a0 cur);
+    do obj1 <- alloc_parent i obj;
+    do cur <- gget_via obj1 (fi_via i) (fi_name i);
+    do obj' <- gset_via obj1 (fi_via i) (fi_name i) (hook (fi_suffix i) a0 cur);
     Ok (obj', match a0 with None => diag_append ds (ReadMissing, fi_path i) | Some _ => ds end).
 Proof. intros K. cbn [from_field]. rewrite K. reflexivity. Qed.
 
